@@ -13,6 +13,12 @@ CHECKS = {
  "C09": ("fault_enumeration", "exhaustive enumeration of truncations, bit flips and adversarial length/count claims at every field, executed in isolated single-threaded child processes with allocation accounting and death/hang attribution",
          "Every truncation point, every bit flip and every length/count field position carrying each adversarial claim (up to 2^64-1), plus short-alphabet strings and a product of JSON documents, through every decoding entry point; each call must return, report consumption <= supplied and allocate proportionally to the input.",
          "Allocation measured with runtime.MemStats.TotalAlloc in a single-threaded child under RLIMIT_AS; deaths attributed through a progress marker and reproduced twice.", "DESIGN.md §4 C09"),
+ "C02": ("exploration", "exhaustive bounded enumeration (all 128 FORKID hash types x tx shapes x indices x missing-element cases) against a reference digest certified on the node's 1000 sighash vectors",
+         "Every element of the product space is hashed by the library and by an independent reference of the BSV FORKID algorithm; preimages are compared byte for byte, error behaviour and non-modification are checked on each.",
+         "Reference internal/ref/sighashref must first reproduce all 500+500 node vectors in /repo/bscript/interpreter/data (otherwise the run aborts without verdict); trusted: crypto/sha256.", "DESIGN.md §4 C02"),
+ "C03": ("exploration", "exhaustive bounded enumeration (all 128 legacy hash types x tx shapes x in-range indices x filled/unfilled inputs) against a reference of the original algorithm certified on the node's legacy vectors",
+         "Every element of the product space is serialised by the library's legacy path and by the reference; byte equality, the SIGHASH_SINGLE constant and non-modification of the caller's transaction are checked on each.",
+         "Same reference and anchor as C02.", "DESIGN.md §4 C03"),
 }
 
 PENDING_REASON = "check not built yet in this round (planned, see DESIGN.md §4); not claimed until its exhaustive check exists and is quiet on the unchanged tree"
